@@ -20,7 +20,7 @@ func init() {
 		Decided: "every value sent into a search (standard and accelerated client, local and remote source) lies behind the nil-error edge of Validator.Validate called with the operation's key and that same value (R1); " +
 			"the best-so-far value changes only when there was none or Select ranked the newcomer first, the 'better' flag is raised only there, the abort result of the callback is never dropped, and values are streamed only when better (R2); " +
 			"ProtocolMessenger.GetValue returns a record only behind the key comparison (R3); a public key from a node is returned only after it hashed to the peer's ID (R4); " +
-			"GetValue returns ErrNotFound when nothing was found (R5); the dual client builds its parallel router with the WAN validator (R6).",
+			"GetValue returns ErrNotFound when nothing was found (R5); the dual client builds its parallel router with the WAN validator (R6). Added after the seeded rounds: nothing rooted in SearchValue sends a []byte itself — values reach its output only through searchValueQuorum (R1).",
 		NotDecided: "correctness of Validate/Select themselves; that the final value dominates all processed answers under a concurrent consumer (the code has one consumer).",
 	})
 }
